@@ -152,7 +152,7 @@ PROPS = {
     "C08": {
         "title": "Reachability operations return exactly the least fixed point",
         "rules": [on_program(rules_dispatch.rule_dispatch), rules_ftype.rule_mix_image, on_program(rules_sibling.rule_image_fire), on_program(rules_dispatch.rule_split_complete), on_program(rules_sibling.rule_graph_diagonals),
-                  on_program(rules_ct.rule_key_level_flag), on_program(rules_level.rule_position_kind), on_program(rules_level.rule_chain_args), on_program(rules_level.rule_compare_after_store)],
+                  on_program(rules_ct.rule_key_level_flag), on_program(rules_level.rule_position_kind), on_program(rules_level.rule_chain_args), on_program(rules_level.rule_compare_after_store), on_program(rules_ct.rule_state_in_key)],
         "explanation": STRUCTURAL + ". C08: one clause — the traditional (frontier / no frontier), saturation and one-step image factories select the same accumulate operator per forest kind "
                        "(boolean MT: UNION, integer MT: DIST_MIN, EV+: MINIMUM), a necessary condition of all algorithms returning the identical edge and of the distance variants using (min, +1) everywhere; "
                        "plus the cross-forest discipline of the reachability code.",
